@@ -146,6 +146,14 @@ Context {A : Type}.
 Definition good_view (s : tsrc A) : Prop :=
   valid_shape (src_shape s) /\ elements (src_shape s) <= usize_max /\ src_total s.
 
+Lemma map_vals_fun {X B} (get : X -> option A) (f : A -> B) x0 : forall l vals,
+  map get l = map Some vals ->
+  map f vals = map (fun i => match get i with Some x => f x | None => f x0 end) l.
+Proof.
+  induction l as [|i l IH]; intros [|v vals] H; cbn [map] in *; try discriminate; [reflexivity|].
+  injection H as Hi Hrest. rewrite Hi. f_equal. apply IH. exact Hrest.
+Qed.
+
 (* Tensor::from(view.shape(), view.iter().map(f).collect()) materialises f over the view *)
 Lemma collect_map {B} (f : A -> B) (s : tsrc A) : good_view s ->
   exists t, tensor_from (src_shape s) (map f (iter_values s)) = Ok t /\
@@ -158,18 +166,14 @@ Proof.
             forall idx, in_range idx (lens_of (src_shape s)) -> option_map f (src_get s idx) = Some (g idx)).
   { unfold view_elems in Hve.
     destruct (all_indexes (lens_of (src_shape s))) as [|i0 rest] eqn:Eall.
-    - destruct vals; [|discriminate]. exists (fun _ => f (match vals with _ => match Ht [] with end end)) || idtac.
-      (* no index at all: impossible for a valid shape (elements >= 1) *)
+    - (* no index at all: impossible for a valid shape (elements >= 1) *)
       exfalso. pose proof (all_indexes_length (lens_of (src_shape s))) as L. rewrite Eall in L.
       destruct Hv as [_ Hp]. pose proof (prod_pos _ Hp). cbn [length] in L. lia.
     - destruct (Ht i0) as [x0 Hx0].
       { pose proof (all_indexes_in_range (lens_of (src_shape s))) as F. rewrite Eall in F.
         inversion F; assumption. }
       exists (fun idx => match src_get s idx with Some x => f x | None => f x0 end). split.
-      + rewrite <- Eall. clear -Hve Eall. rewrite <- Eall in Hve. revert vals Hve.
-        induction (all_indexes (lens_of (src_shape s))) as [|i l IH]; intros [|v vals] Hve;
-          cbn [map] in *; try discriminate; [reflexivity|].
-        injection Hve as Hi Hrest. rewrite Hi. f_equal. apply IH. exact Hrest.
+      + apply map_vals_fun. exact Hve.
       + intros idx Hr. destruct (Ht idx Hr) as [x Hx]. rewrite Hx. reflexivity. }
   destruct G as [g [Hg Hget]].
   rewrite Hiv, Hg.
@@ -177,3 +181,293 @@ Proof.
   exists t. split; [exact Hok|]. unfold materialises. repeat split; auto.
   intros idx Hr. rewrite Hm by exact Hr. symmetry. apply Hget. exact Hr.
 Qed.
+
+(* ---- reorder ---- *)
+Theorem reorder_materialises (s : tsrc A) dims tbl :
+  dm_new (names_of (src_shape s)) dims = Some tbl -> good_view (TAccess s tbl) ->
+  exists t, reorder s dims = Ok t /\
+            materialises t (src_shape (TAccess s tbl)) (src_get (TAccess s tbl)).
+Proof.
+  intros Hd Hg. unfold reorder. rewrite Hd.
+  destruct (collect_map (fun x => x) (TAccess s tbl) Hg) as [t [Hok [Hsh [Hst Hm]]]].
+  rewrite map_id in Hok. exists t. split; [exact Hok|]. repeat split; auto.
+  intros idx Hr. rewrite Hm by exact Hr. destruct (src_get (TAccess s tbl) idx); reflexivity.
+Qed.
+
+Theorem reorder_rejects (s : tsrc A) dims :
+  dm_new (names_of (src_shape s)) dims = None ->
+  reorder s dims = Panic /\ transpose s dims = Panic.
+Proof. intros Hd. unfold transpose, reorder. rewrite Hd. split; reflexivity. Qed.
+
+(* ---- transpose: the reordered data under the original names, in order ---- *)
+Lemma lens_with_names (names sh : shape) : length names = length sh ->
+  lens_of (with_names_of names sh) = lens_of sh.
+Proof.
+  revert sh; induction names as [|n names IH]; intros [|d sh] H; cbn [length] in H; try lia;
+    [reflexivity|].
+  unfold with_names_of, lens_of in *. cbn [combine map fst snd]. f_equal. apply IH. lia.
+Qed.
+
+Lemma strides_lens (sh1 sh2 : shape) : lens_of sh1 = lens_of sh2 ->
+  compute_strides sh1 = compute_strides sh2.
+Proof.
+  intros H. unfold compute_strides. rewrite H.
+  replace (length sh1) with (length sh2); [reflexivity|].
+  apply (f_equal (@length _)) in H. unfold lens_of in H. rewrite !map_length in H. lia.
+Qed.
+
+Theorem transpose_materialises (s : tsrc A) dims tbl :
+  dm_new (names_of (src_shape s)) dims = Some tbl -> good_view (TAccess s tbl) ->
+  exists t, transpose s dims = Ok t /\
+            materialises t (src_shape (TTranspose s tbl)) (src_get (TTranspose s tbl)).
+Proof.
+  intros Hd Hg. destruct (reorder_materialises s dims tbl Hd Hg) as [r [Hok [Hsh [Hst Hm]]]].
+  unfold transpose. rewrite Hok. cbn [omap]. eexists. split; [reflexivity|].
+  assert (Hlen : length (src_shape s) = length (src_shape (TAccess s tbl))).
+  { cbn [src_shape]. unfold map_shape_to_requested, dm_r2s. rewrite !map_length.
+    pose proof (dm_new_length _ _ _ Hd) as L. unfold names_of in L. rewrite map_length in L. lia. }
+  assert (Hshape : with_names_of (src_shape s) (t_shape r) = src_shape (TTranspose s tbl)).
+  { rewrite Hsh. reflexivity. }
+  assert (Hlens : lens_of (src_shape (TTranspose s tbl)) = lens_of (src_shape (TAccess s tbl))).
+  { rewrite <- Hshape, Hsh. apply lens_with_names. exact Hlen. }
+  unfold materialises. cbn [t_shape t_strides]. rewrite Hshape. split; [reflexivity|]. split.
+  - rewrite Hst. apply strides_lens. symmetry. exact Hlens.
+  - intros idx Hr. rewrite Hlens in Hr. specialize (Hm idx Hr). cbn [src_get] in *.
+    rewrite <- Hm. unfold t_get, get_index_direct. cbn [t_strides t_shape t_data].
+    rewrite Hlens, Hsh. reflexivity.
+Qed.
+
+(* ---- map on views ---- *)
+Theorem view_map_materialises {B} (f : A -> B) (s : tsrc A) : good_view s ->
+  exists t, view_map f s = Ok t /\
+            materialises t (src_shape s) (fun idx => option_map f (src_get s idx)).
+Proof. intros Hg. unfold view_map. apply collect_map. exact Hg. Qed.
+
+(* ---- a Tensor iterates its storage in order; Tensor methods = view methods on itself ---- *)
+Lemma nth_error_enum {X} (l : list X) : forall pre,
+  map (fun k => nth_error (pre ++ l) (N.to_nat k)) (nseq (N.of_nat (length pre)) (length l)) = map Some l.
+Proof.
+  induction l as [|x l IH]; intros pre; [reflexivity|].
+  cbn [length nseq map]. f_equal.
+  - rewrite Nat2N.id, nth_error_app2 by lia. rewrite Nat.sub_diag. reflexivity.
+  - specialize (IH (pre ++ [x])). rewrite <- app_assoc in IH. cbn [app] in IH.
+    rewrite app_length in IH. cbn [length] in IH.
+    replace (N.of_nat (length pre) + 1) with (N.of_nat (length pre + 1)) by lia. exact IH.
+Qed.
+
+Theorem tensor_view_elems (t : tensor A) : tensor_inv t ->
+  view_elems (TBase t) = map Some (t_data t) /\ iter_values (TBase t) = t_data t /\ src_total (TBase t).
+Proof.
+  intros [Hv [Hs He]].
+  assert (E : view_elems (TBase t) = map Some (t_data t)).
+  { unfold view_elems. cbn [src_shape src_get].
+    rewrite (map_ext_in _ (fun x => nth_error (t_data t) (N.to_nat (flat x (lens_of (t_shape t)))))).
+    - rewrite <- (map_map (fun x => flat x (lens_of (t_shape t))) (fun k => nth_error (t_data t) (N.to_nat k))).
+      rewrite all_indexes_flat. fold (elements (t_shape t)). rewrite <- He, Nat2N.id.
+      apply (nth_error_enum (t_data t) []).
+    - intros idx Hin. apply t_get_flat; [exact Hs|].
+      pose proof (all_indexes_in_range (lens_of (t_shape t))) as F. rewrite Forall_forall in F. auto. }
+  split; [exact E|]. split.
+  - rewrite iter_values_spec, E. apply somes_map_Some.
+  - intros idx Hr. cbn [src_shape src_get] in *. rewrite t_get_flat by assumption.
+    apply nth_error_lt_Some. pose proof (flat_lt _ _ Hr). fold (elements (t_shape t)) in H. lia.
+Qed.
+
+Lemma tensor_inv_validate (t : tensor A) : tensor_inv t -> elements (t_shape t) <= usize_max ->
+  forall {B} (data : list B), length data = length (t_data t) ->
+  tensor_from (t_shape t) data = Ok (mkTensor data (t_shape t) (t_strides t)).
+Proof.
+  intros [Hv [Hs He]] Hb B data Hl. unfold tensor_from.
+  assert (V : validate_dimensions (t_shape t) (N.of_nat (length data)) = true).
+  { apply validate_dimensions_spec. repeat split; try apply Hv; try assumption. rewrite Hl. lia. }
+  rewrite V, Hs. reflexivity.
+Qed.
+
+(* Tensor::map / map_mut on a tensor = TensorView::map over the tensor itself *)
+Theorem tensor_map_eq_view_map {B} (f : A -> B) (t : tensor A) :
+  tensor_inv t -> elements (t_shape t) <= usize_max ->
+  view_map f (TBase t) = Ok (tensor_map f t).
+Proof.
+  intros Hi Hb. unfold view_map, tensor_map. cbn [src_shape].
+  destruct (tensor_view_elems t Hi) as [_ [-> _]].
+  apply tensor_inv_validate; auto. apply map_length.
+Qed.
+
+Theorem tensor_map_mut_eq_map (f : A -> A) (t : tensor A) : tensor_map_mut f t = tensor_map f t.
+Proof. reflexivity. Qed.
+
+(* Tensor::first / TensorView::first / scalar: the element at the all-zero index *)
+Theorem tensor_first_eq_view_first (t : tensor A) : tensor_inv t ->
+  tensor_first t = view_first (TBase t).
+Proof.
+  intros Hi. destruct (tensor_view_elems t Hi) as [Hve [_ Ht]].
+  pose proof (iter_items (TBase t)) as It. unfold fuel_of in It. cbn [ti_run] in It.
+  unfold view_first, tensor_first.
+  destruct (ti_next (tensor_iter_from (TBase t))) as [[x|] it'].
+  - unfold view_elems in Hve.
+    destruct (all_indexes (lens_of (src_shape (TBase t)))) as [|i0 rest]; [discriminate|].
+    cbn [map] in It, Hve. injection It as -> _. destruct (t_data t) as [|d0 ds]; [discriminate|].
+    cbn [map] in Hve. injection Hve as Hx _. cbn [src_get] in *. rewrite Hx. reflexivity.
+  - unfold view_elems in Hve.
+    destruct (all_indexes (lens_of (src_shape (TBase t)))) as [|i0 rest]; [|discriminate].
+    destruct (t_data t); [reflexivity|discriminate].
+Qed.
+
+End Transformations.
+
+(* ================= Part C: equality and similarity ================= *)
+Section EqSim.
+Context {A : Type}.
+Variable eqb : A -> A -> bool.
+Hypothesis eqb_spec : forall x y, eqb x y = true <-> x = y.
+
+Lemma shape_eqb_eq (a b : shape) : shape_eqb a b = true <-> a = b.
+Proof.
+  revert b; induction a as [|[n1 l1] a IH]; intros [|[n2 l2] b]; cbn [shape_eqb];
+    try (split; [discriminate|discriminate]); [split; reflexivity|].
+  rewrite !andb_true_iff, Nat.eqb_eq, N.eqb_eq, IH. split.
+  - intros [[-> ->] ->]. reflexivity.
+  - intros [= -> -> ->]. auto.
+Qed.
+
+Lemma forallb_combine_map {X} (f g : X -> A) l :
+  forallb (fun p => eqb (fst p) (snd p)) (combine (map f l) (map g l)) = true <->
+  forall i, In i l -> f i = g i.
+Proof.
+  induction l as [|i l IH]; cbn [map combine forallb fst snd].
+  - split; [intros _ ? []|reflexivity].
+  - rewrite andb_true_iff, eqb_spec, IH. split.
+    + intros [H1 H2] j [<-|Hj]; auto.
+    + intros H. split; [apply H; left; reflexivity|intros j Hj; apply H; right; exact Hj].
+Qed.
+
+(* eq <-> same shape (names, order, lengths) and the same element at every index *)
+Theorem equality_iff (l r : tsrc A) : src_total l -> src_total r ->
+  (tensor_equality eqb l r = true <->
+   src_shape l = src_shape r /\
+   forall idx, in_range idx (lens_of (src_shape l)) -> src_get l idx = src_get r idx).
+Proof.
+  intros Tl Tr. unfold tensor_equality. rewrite andb_true_iff, shape_eqb_eq.
+  split.
+  - intros [Hs Hf]. split; [exact Hs|]. intros idx Hr.
+    destruct (total_vals l Tl) as [vl [Hvl [Hil _]]]. destruct (total_vals r Tr) as [vr [Hvr [Hir _]]].
+    rewrite Hil, Hir in Hf. unfold view_elems in Hvl, Hvr. rewrite <- Hs in Hvr.
+    set (all := all_indexes (lens_of (src_shape l))) in *.
+    destruct (Tl idx Hr) as [x0 Hx0].
+    pose proof (map_vals_fun (src_get l) (fun x => x) x0 all vl Hvl) as El.
+    pose proof (map_vals_fun (src_get r) (fun x => x) x0 all vr Hvr) as Er.
+    rewrite map_id in El, Er. rewrite El, Er in Hf.
+    rewrite forallb_combine_map in Hf.
+    assert (Hin : In idx all).
+    { eapply nth_error_In. apply all_indexes_at. exact Hr. }
+    specialize (Hf idx Hin). cbv beta in Hf.
+    destruct (Tl idx Hr) as [a Ha]. assert (Hr' : in_range idx (lens_of (src_shape r))) by (rewrite <- Hs; exact Hr).
+    destruct (Tr idx Hr') as [b Hb]. rewrite Ha, Hb in *. congruence.
+  - intros [Hs Hg]. split; [exact Hs|].
+    rewrite !iter_values_spec. unfold view_elems. rewrite <- Hs.
+    rewrite (map_ext_in (src_get r) (src_get l)).
+    + set (vals := somes _). clear. induction vals as [|v vals IH]; [reflexivity|].
+      cbn [combine forallb fst snd]. rewrite IH, andb_true_r. apply eqb_spec. reflexivity.
+    + intros idx Hin. symmetry. apply Hg.
+      pose proof (all_indexes_in_range (lens_of (src_shape l))) as F. rewrite Forall_forall in F. auto.
+Qed.
+
+(* reflexive and symmetric (no totality needed) *)
+Theorem equality_refl (l : tsrc A) : tensor_equality eqb l l = true.
+Proof.
+  unfold tensor_equality. rewrite andb_true_iff. split; [apply shape_eqb_eq; reflexivity|].
+  induction (iter_values l) as [|v vals IH]; [reflexivity|].
+  cbn [combine forallb fst snd]. rewrite IH, andb_true_r. apply eqb_spec. reflexivity.
+Qed.
+
+Lemma eqb_sym x y : eqb x y = eqb y x.
+Proof.
+  destruct (eqb x y) eqn:E1; destruct (eqb y x) eqn:E2; auto.
+  - apply eqb_spec in E1. subst. assert (eqb y y = true) by (apply eqb_spec; reflexivity). congruence.
+  - apply eqb_spec in E2. subst. assert (eqb x x = true) by (apply eqb_spec; reflexivity). congruence.
+Qed.
+
+Lemma shape_eqb_sym a b : shape_eqb a b = shape_eqb b a.
+Proof.
+  destruct (shape_eqb a b) eqn:E1; destruct (shape_eqb b a) eqn:E2; auto.
+  - apply shape_eqb_eq in E1. subst. assert (shape_eqb b b = true) by (apply shape_eqb_eq; reflexivity). congruence.
+  - apply shape_eqb_eq in E2. subst. assert (shape_eqb a a = true) by (apply shape_eqb_eq; reflexivity). congruence.
+Qed.
+
+Theorem equality_sym (l r : tsrc A) : tensor_equality eqb l r = tensor_equality eqb r l.
+Proof.
+  unfold tensor_equality. rewrite shape_eqb_sym. f_equal.
+  generalize (iter_values l) (iter_values r). induction l0 as [|x xs IH]; intros [|y ys]; try reflexivity.
+  cbn [combine forallb fst snd]. rewrite eqb_sym, IH. reflexivity.
+Qed.
+
+(* ---- similarity ---- *)
+Lemma dm_new_same (names : list name) : dm_new names names = Some (dm_no_op (length names)).
+Proof.
+  unfold dm_new, dm_no_op. apply sequence_Some. rewrite map_map. apply map_ext.
+  intros d. unfold dm_step. rewrite Nat.eqb_refl. reflexivity.
+Qed.
+
+Lemma nth_seq_map {X} (l : list X) (d : X) : map (fun p => nth p l d) (seq 0 (length l)) = l.
+Proof.
+  induction l as [|x l IH]; [reflexivity|]. cbn [length seq map nth]. f_equal.
+  rewrite <- seq_shift, map_map. exact IH.
+Qed.
+
+Lemma no_op_shape (sh : shape) : map_shape_to_requested (dm_no_op (length sh)) sh = sh.
+Proof.
+  unfold map_shape_to_requested, dm_r2s, dm_no_op. rewrite !map_map. cbn [snd]. apply nth_seq_map.
+Qed.
+
+Lemma no_op_index (idx : list N) :
+  map_dimensions_to_source (dm_no_op (length idx)) idx 0 = idx.
+Proof.
+  unfold map_dimensions_to_source, dm_s2r, dm_no_op. rewrite !map_map. cbn [fst]. apply nth_seq_map.
+Qed.
+
+(* an access in the source's own order shows the source *)
+Lemma no_op_access_values (s : tsrc A) :
+  src_shape (TAccess s (dm_no_op (length (src_shape s)))) = src_shape s /\
+  iter_values (TAccess s (dm_no_op (length (src_shape s)))) = iter_values s.
+Proof.
+  assert (Hs : src_shape (TAccess s (dm_no_op (length (src_shape s)))) = src_shape s)
+    by (cbn [src_shape]; apply no_op_shape).
+  split; [exact Hs|]. rewrite !iter_values_spec. unfold view_elems. rewrite Hs. f_equal.
+  apply map_ext_in. intros idx Hin. cbn [src_get].
+  pose proof (all_indexes_in_range (lens_of (src_shape s))) as F. rewrite Forall_forall in F.
+  pose proof (in_range_length _ _ (F idx Hin)) as L. unfold lens_of in L. rewrite map_length in L.
+  rewrite <- L, no_op_index. reflexivity.
+Qed.
+
+(* similar <-> reordering r's dimensions into l's name order makes them equal *)
+Theorem similarity_iff (l r : tsrc A) :
+  tensor_similarity eqb l r = true <->
+  exists tbl, dm_new (names_of (src_shape r)) (names_of (src_shape l)) = Some tbl /\
+              tensor_equality eqb l (TAccess r tbl) = true.
+Proof.
+  unfold tensor_similarity.
+  destruct (no_op_access_values l) as [Hs Hv].
+  destruct (dm_new (names_of (src_shape r)) (names_of (src_shape l))) as [tbl|].
+  - unfold tensor_equality. rewrite Hv.
+    destruct (shape_eqb (src_shape l) (src_shape (TAccess r tbl))) eqn:E; cbn [negb andb].
+    + split; [intros H; exists tbl; auto|]. intros [tbl' [[= <-] H]]. rewrite E in H. exact H.
+    + split; [discriminate|]. intros [tbl' [[= <-] H]]. rewrite E in H. discriminate.
+  - split; [discriminate|]. intros [tbl [H _]]. discriminate.
+Qed.
+
+Theorem equality_implies_similarity (l r : tsrc A) :
+  tensor_equality eqb l r = true -> tensor_similarity eqb l r = true.
+Proof.
+  intros H. apply similarity_iff.
+  assert (Hs : src_shape l = src_shape r).
+  { unfold tensor_equality in H. apply andb_true_iff in H. apply shape_eqb_eq. apply H. }
+  exists (dm_no_op (length (src_shape r))). split.
+  - rewrite Hs. unfold names_of at 3. rewrite <- (map_length fst). apply dm_new_same.
+  - destruct (no_op_access_values r) as [Hrs Hrv].
+    unfold tensor_equality in *. rewrite Hrs, Hrv. exact H.
+Qed.
+
+Theorem similarity_refl (l : tsrc A) : tensor_similarity eqb l l = true.
+Proof. apply equality_implies_similarity, equality_refl. Qed.
+
+End EqSim.
